@@ -98,6 +98,7 @@ def FaultSpent (s : State) : Prop := s.fault = 0 ∨ s.fault ≤ s.calls
 
 @[simp] theorem good_bindEnqueuesOnlyOnNotFound : Facts.good.bindEnqueuesOnlyOnNotFound = true := rfl
 @[simp] theorem good_finishedChecksPhaseOnly : Facts.good.finishedChecksPhaseOnly = true := rfl
+@[simp] theorem good_keyOwnedSkipsEmptyUid : Facts.good.keyOwnedSkipsEmptyUid = true := rfl
 
 /-- with the facts of the current tree the code's `finished` is the phase test -/
 @[simp] theorem codeFinished_good (p : Pod) : codeFinished Facts.good p = p.finished := by
